@@ -34,8 +34,28 @@ func buildFuncInfo(fn *ssa.Function) *FuncInfo {
 	// ---- post-dominators: iterative set intersection over the reverse CFG with a virtual exit
 	exit := n
 	succs := make([][]int, n+1)
+	// joins are computed with respect to the function's main exit (the last return): early
+	// returns / panics inside loops are dead ends, so that the arm which continues is re-joined
+	// at the continuation point instead of being carried separately to the end of the function
+	mainExit := -1
+	var mainPos token.Pos = -1
 	for _, b := range fn.Blocks {
-		if len(b.Succs) == 0 {
+		if len(b.Succs) == 0 && len(b.Instrs) > 0 {
+			if r, ok := b.Instrs[len(b.Instrs)-1].(*ssa.Return); ok {
+				// the return that comes last in the source text (an implicit return at the end of
+				// the body has no position and counts as last)
+				pos := r.Pos()
+				if pos == token.NoPos {
+					pos = token.Pos(1 << 30)
+				}
+				if pos > mainPos {
+					mainPos, mainExit = pos, b.Index
+				}
+			}
+		}
+	}
+	for _, b := range fn.Blocks {
+		if len(b.Succs) == 0 && (b.Index == mainExit || mainExit < 0) {
 			succs[b.Index] = []int{exit}
 		}
 		for _, s := range b.Succs {
